@@ -4637,3 +4637,245 @@ func mentionsObj(info *types.Info, e ast.Node, o types.Object) bool {
 	return found
 }
 
+
+// ---------------------------------------------------------------------------
+// C08.error-not-dropped — the unread-error analysis of C17 outside the decoders
+
+func init() {
+	register(&Rule{
+		ID: "C08.error-not-dropped", Prop: "C08", Also: []string{"C06", "C09", "C11", "C18", "C10"}, Floor: 40, Controls: 0,
+		Doc: "in packages convert, gocty, function and function/stdlib an error stored in a variable is read (tested, returned, wrapped) on every path before the variable is assigned again or the function returns: an error that is re-wrapped into its variable and then not returned, or assigned to a shadowing variable inside a callback, turns a failure into a silent wrong result",
+		Run: runErrorNotDropped,
+	})
+}
+
+func runErrorNotDropped(rr *RuleRun) {
+	c := rr.Ctx
+	eachFuncBody(c, []string{"cty/convert", "cty/gocty", "cty/function", "cty/function/stdlib"}, func(pkg string, fd *ast.FuncDecl, body *ast.BlockStmt) {
+		info := c.Info(pkg)
+		r := declRef{pkg, fd}
+		namedErr := map[types.Object]bool{}
+		// named error results of the function that owns this body
+		var ftype *ast.FuncType
+		if fd.Body == body {
+			ftype = fd.Type
+		} else if fl, ok := c.Parent(body).(*ast.FuncLit); ok {
+			ftype = fl.Type
+		}
+		if ftype != nil && ftype.Results != nil {
+			for _, f := range ftype.Results.List {
+				for _, nm := range f.Names {
+					if o := info.Defs[nm]; o != nil && isErrorType(o.Type()) {
+						namedErr[o] = true
+					}
+				}
+			}
+		}
+		// variables of an enclosing function that a closure assigns are read by that function later
+		if fd.Body != body {
+			inspectNoLit(body, func(n ast.Node) bool {
+				if as, ok := n.(*ast.AssignStmt); ok && as.Tok == token.ASSIGN {
+					for _, l := range as.Lhs {
+						if o := objOf(info, l); o != nil && isErrorType(o.Type()) && (o.Pos() < body.Pos() || o.Pos() > body.End()) {
+							namedErr[o] = true
+						}
+					}
+				}
+				return true
+			})
+		}
+		g := c.CFG(body, info)
+		n, bad := errorFlow(rr, c, info, r, g, namedErr)
+		if n > 0 && bad == 0 {
+			rr.OK(fmt.Sprintf("%s.%s@%s", pkg, declName(fd), c.PosStr(body.Pos())), body.Pos(), fmt.Sprintf("%d error assignment(s): each is read before being overwritten or dropped", n))
+		}
+	})
+}
+
+// ---------------------------------------------------------------------------
+// C18.callback-error-escapes
+
+func init() {
+	register(&Rule{
+		ID: "C18.callback-error-escapes", Prop: "C18", Also: []string{"C17"}, Floor: 4, Controls: 0,
+		Doc: "in gocty, a ForEachElement callback can only report an element's decoding error through a variable of the enclosing function (the callback itself returns just 'stop'): the error result of every fromCty* call inside such a callback is assigned to a variable declared outside the callback, never to a new variable declared inside it — a shadowed error stops the iteration and is then forgotten, so a partly decoded target is returned as success",
+		Run: runCallbackErrorEscapes,
+	})
+}
+
+func runCallbackErrorEscapes(rr *RuleRun) {
+	c := rr.Ctx
+	pkg := "cty/gocty"
+	info := c.Info(pkg)
+	for _, fd := range c.SortedDecls(pkg) {
+		ast.Inspect(fd.Body, func(n ast.Node) bool {
+			call, ok := n.(*ast.CallExpr)
+			if !ok || !isCall(info, call, "cty.Value.ForEachElement") || len(call.Args) != 1 {
+				return true
+			}
+			fl, ok := call.Args[0].(*ast.FuncLit)
+			if !ok {
+				return true
+			}
+			ast.Inspect(fl.Body, func(m ast.Node) bool {
+				as, ok := m.(*ast.AssignStmt)
+				if !ok || len(as.Rhs) != 1 {
+					return true
+				}
+				ic, ok := ast.Unparen(as.Rhs[0]).(*ast.CallExpr)
+				if !ok {
+					return true
+				}
+				f := callee(info, ic)
+				if f == nil || shortPkg(f.Pkg()) != pkg || !strings.HasPrefix(f.Name(), "fromCty") {
+					return true
+				}
+				sig := f.Type().(*types.Signature)
+				if sig.Results().Len() == 0 || !isErrorType(sig.Results().At(sig.Results().Len()-1).Type()) {
+					return true
+				}
+				lhs := as.Lhs[len(as.Lhs)-1]
+				o := objOf(info, lhs)
+				key := fmt.Sprintf("%s.%s/callback/%s←%s", pkg, declName(fd), exprStr(lhs), f.Name())
+				if o != nil && (o.Pos() < fl.Pos() || o.Pos() > fl.End()) {
+					rr.OK(key, as.Pos(), "the error is stored in a variable of the enclosing function")
+				} else {
+					rr.Violation(key, as.Pos(), fmt.Sprintf("the error of %s is stored in %s, a variable declared inside the callback: the callback can only return 'stop', so the enclosing function never sees the error and reports success for a partly decoded target", f.Name(), exprStr(lhs)))
+				}
+				return true
+			})
+			return true
+		})
+	}
+}
+
+// ---------------------------------------------------------------------------
+// C05.safe-prefix-normalised-first
+
+func init() {
+	register(&Rule{
+		ID: "C05.safe-prefix-normalised-first", Prop: "C05", Floor: 2, Controls: 0,
+		Doc: "SafeKnownPrefix hands back only (slices of) the normalised prefix: every return that mentions the prefix variable lies after the assignment that replaces it by its NFC-normalised form on every path — a prefix returned verbatim before normalisation is not a byte prefix of the normalised form of its extensions",
+		Run: runSafePrefixNormalisedFirst,
+	})
+}
+
+func runSafePrefixNormalisedFirst(rr *RuleRun) {
+	c := rr.Ctx
+	pkg := "cty/ctystrings"
+	info := c.Info(pkg)
+	fd := rr.MustDecl(pkg, "SafeKnownPrefix")
+	if fd == nil {
+		return
+	}
+	param := info.Defs[paramIdent(fd, 0)]
+	g := c.CFG(fd.Body, info)
+	spec := &FactSpec{
+		Atom: func(ast.Expr, bool) []Fact { return nil },
+		Effects: func(n ast.Node) []Effect {
+			as, ok := n.(*ast.AssignStmt)
+			if !ok || len(as.Lhs) != 1 || len(as.Rhs) != 1 || objOf(info, as.Lhs[0]) != param {
+				return nil
+			}
+			// prefix = Normalize(prefix) / norm.NFC.String(prefix) / string(norm.NFC.Bytes(...))
+			normalises := false
+			ast.Inspect(as.Rhs[0], func(m ast.Node) bool {
+				if call, ok := m.(*ast.CallExpr); ok {
+					k := funcKey(callee(info, call))
+					if k == pkg+".Normalize" || k == "cty.NormalizeString" || strings.HasPrefix(k, "golang.org/x/text/unicode/norm.Form.") {
+						normalises = true
+					}
+				}
+				return true
+			})
+			if normalises {
+				return []Effect{{Assert: &Fact{"normalised", objKey(param)}}}
+			}
+			// a slice of the already normalised prefix stays normalised
+			if se, ok := ast.Unparen(as.Rhs[0]).(*ast.SliceExpr); ok && objOf(info, se.X) == param {
+				return []Effect{{Keep: &Fact{"normalised", objKey(param)}}}
+			}
+			return nil
+		},
+	}
+	facts := g.MustFacts(spec)
+	n := 0
+	for _, ret := range g.Returns() {
+		if len(ret.Results) != 1 || !mentionsObj(info, ret.Results[0], param) {
+			continue
+		}
+		n++
+		key := fmt.Sprintf("%s.SafeKnownPrefix/return %s", pkg, trunc(exprStr(ret.Results[0]), 30))
+		fs, ok := facts.At(ret)
+		if ok && fs.has("normalised", objKey(param)) {
+			rr.OK(key, ret.Pos(), "what is returned is (a slice of) the normalised prefix")
+		} else {
+			rr.Violation(key, ret.Pos(), "the prefix is handed back on a path on which it was not replaced by its NFC-normalised form first: a non-normalised prefix is not a byte prefix of the normalised form of the strings that extend it")
+		}
+	}
+	if n == 0 {
+		rr.Broken("stale anchor: SafeKnownPrefix returns nothing derived from its parameter")
+	}
+}
+
+// ---------------------------------------------------------------------------
+// C01.length-of-unknown-tuple
+
+func init() {
+	register(&Rule{
+		ID: "C01.length-of-unknown-tuple", Prop: "C01", Also: []string{"C02"}, Floor: 1, Controls: 0,
+		Doc: "Value.Length derives the length of an unknown value from its refined length range (ValueRange.LengthLowerBound / LengthUpperBound, which exist for collections only) solely on paths where the branch conditions exclude a tuple type: the length of a tuple is decided by its type even when the value is unknown, so the tuple case must be dealt with before the unknown case — otherwise weakening a tuple to unknown turns a succeeding Length into a panic",
+		Run: runLengthOfUnknownTuple,
+	})
+}
+
+func runLengthOfUnknownTuple(rr *RuleRun) {
+	c := rr.Ctx
+	info := c.Info("cty")
+	fd := rr.MustDecl("cty", "Value.Length")
+	if fd == nil {
+		return
+	}
+	cf := c.CondFacts(fd.Body, info, nil)
+	n := 0
+	inspectNoLit(fd.Body, func(nd ast.Node) bool {
+		call, ok := nd.(*ast.CallExpr)
+		if !ok {
+			return true
+		}
+		k := funcKey(callee(info, call))
+		// the collection-only consumers of a range: the accessors themselves or the helper that calls them
+		collectionOnly := k == "cty.ValueRange.LengthLowerBound" || k == "cty.ValueRange.LengthUpperBound" || k == "cty.valueRefineLengthResult"
+		if !collectionOnly {
+			return true
+		}
+		n++
+		key := "cty.Value.Length/" + trunc(exprStr(call), 40)
+		notTuple := cf.HoldsAt(call, func(cond ast.Expr, truth bool) bool {
+			cc, ok := ast.Unparen(cond).(*ast.CallExpr)
+			if !ok {
+				return false
+			}
+			se, ok := cc.Fun.(*ast.SelectorExpr)
+			if !ok {
+				return false
+			}
+			switch se.Sel.Name {
+			case "IsTupleType":
+				return !truth
+			case "IsCollectionType", "IsListType", "IsMapType", "IsSetType":
+				return truth
+			}
+			return false
+		})
+		if notTuple {
+			rr.OK(key, call.Pos(), "reached only where a tuple type is excluded")
+		} else {
+			rr.Violation(key, call.Pos(), "the length range of the value (defined for collections only) is consulted on a path that has not excluded a tuple type: Length of an unknown tuple then panics, although the length of a tuple is known from its type")
+		}
+		return true
+	})
+	if n == 0 {
+		rr.Info("cty.Value.Length/range", fd.Pos(), "Length does not consult the refined length range")
+	}
+}
